@@ -24,6 +24,7 @@ func run(e *harness.Env) {
 		"(batch) collections of 0..3 chunks x batch size {1,2,n,n+1,0,-1} x 6 configurations; (stream) WriteChunk/Close per format; " +
 		"(vdb) PrepareForVectorDB/Pinecone/Chroma/Weaviate x embedding layouts {full,nil,short,long,holes} x class names; " +
 		"(filter) collections of <=3 (quick) / <=4 (thorough) chunks over 8 chunk kinds x every FilterBy*/Search/Filter predicate with boundary arguments, and every two-filter chain on collections of <=2 (quick) / <=3 (thorough) chunks. " +
+		"(sibling) every ordered pair of the predicates applied to the SAME source collection of <=2 (quick) / <=3 (thorough) chunks, thorough also every ordered triple of 20 family-covering predicates: all results judged only after all calls, again after exporting a sibling, after filtering the result further and after Search on the source, and through ToJSONL/ToJSON of the result. " +
 		"distinct = distinct case descriptors; non-trivial = anything but a single plain chunk / the identity filter"
 	e.Assumptions = []string{
 		"encoding/json's decoder is a conforming JSON parser; encoding/csv is a conforming reader when no CR is involved",
@@ -37,6 +38,7 @@ func run(e *harness.Env) {
 	streamSpace(e)
 	vdbSpace(e)
 	filterSpace(e)
+	siblingSpace(e)
 }
 
 // ---- export configurations ------------------------------------------------------------------------
